@@ -4,12 +4,13 @@
 TAG=$1; SROOT=$2; LANES=$3; shift 3
 i=0
 for job in "$@"; do echo "$job"; done > /tmp/seedlanes.jobs
-for l in $(seq 1 $LANES); do
+B=${LANE_BASE:-0}
+for l0 in $(seq 1 $LANES); do l=$((l0 + B))
   ( mkdir -p /tmp/lane$l; rsync -a --delete --exclude build --exclude .git --exclude __pycache__ --exclude replay --exclude seeded /verif/ /tmp/lane$l/verif/
     [ -d /tmp/lane$l/wt ] || git -C /repo worktree add -f --detach /tmp/lane$l/wt HEAD -q
-    awk -v l=$l -v n=$LANES 'NR % n == l % n' /tmp/seedlanes.jobs | while IFS=: read id k checks; do
+    awk -v l=$l0 -v n=$LANES 'NR % n == l % n' /tmp/seedlanes.jobs | while IFS=: read id k checks; do
       echo "== $id m$k"; SEEDTAG=$TAG SEED_SCR=/tmp/lane$l/wt SEED_LANE_ROOT=/tmp/lane$l/verif python3 /verif/tools/seedtest.py $SROOT/$id/out $k $id $checks 2>&1 | tail -3 | cut -c1-600
     done ) > /tmp/lane$l.log 2>&1 &
 done
 wait
-cat /tmp/lane*.log
+for l0 in $(seq 1 $LANES); do cat /tmp/lane$((l0 + B)).log; done
